@@ -1,4 +1,88 @@
-From Coq Require Import List Bool NArith.
-From MV Require Import Base.Bytes Model.DnsNames Model.DnsMessage.
-Theorem C25_placeholder : True. Proof. exact I. Qed.
-Print Assumptions C25_placeholder.
+(* Props/C25.v -- DNS wire encoding round-trips and decoding is total.
+   Statements only; each is closed by [exact] of a lemma proved in Proofs/Dns*.v.
+   The model is Model/DnsNames.v + Model/DnsMessage.v (the definitions the correspondence
+   check runs).  EAce = a label/name outside the modelled IDNA fragment (ACE prefix or
+   non-ASCII); wf_name excludes those, and the decoders report them as their own class. *)
+From Coq Require Import List Bool Arith NArith.
+From MV Require Import Base.Bytes Model.DnsNames Model.DnsMessage
+  Proofs.DnsNamesRT Proofs.DnsMessageRT Proofs.DnsFuel Proofs.DnsC25.
+Import ListNotations.
+
+(* Every well-formed name (labels of 1..63 ASCII characters without the ACE prefix, or the
+   root name) packs to its plain label wire form and domain_names.unpack reads it back. *)
+Theorem C25_name_roundtrip : forall n : name, wf_name n ->
+  DnsNames.unpack (wire_name n) = Ok n /\ pack n = Ok (wire_name n).
+Proof. exact name_roundtrip. Qed.
+Print Assumptions C25_name_roundtrip.
+
+(* The property as stated (any record data bytes) is FALSE of the faithful model: a
+   well-formed message with TXT data 02 c0 0c decodes to a different message.
+   Finding rdata-pointer-lookalike-rewritten. *)
+Theorem C25_roundtrip_refuted : exists m, wf_msg m /\
+  exists b m', packed m = Ok b /\ DnsMessage.unpack b = Ok m' /\ m' <> m.
+Proof. exact roundtrip_refuted. Qed.
+Print Assumptions C25_roundtrip_refuted.
+
+(* On the complement of that finding (no byte >= 0xC0 in the data of a record whose type is
+   in record_data_can_have_compression; all other record data arbitrary) every well-formed
+   message over the full field ranges encodes to bytes that decode to the same message. *)
+Theorem C25_roundtrip_partial : forall m : message, wf_msg m -> Forall rdata_guard (all_rrs m) ->
+  packed m = Ok (msgwire m) /\ DnsMessage.unpack (msgwire m) = Ok m.
+Proof. exact message_roundtrip. Qed.
+Print Assumptions C25_roundtrip_partial.
+
+(* Decoding arbitrary bytes terminates (the fuel of the model is never exhausted: EFuel is
+   not in decode_err, pointer loops and chains included) and produces a message or one of
+   EStruct (struct.error), EAce, EValue, EUnicode; never EIndex/EOther. *)
+Theorem C25_decode_total : forall buf : bytes,
+  match DnsMessage.unpack buf with Ok _ => True | Err e => decode_err e end.
+Proof. exact unpack_total. Qed.
+Print Assumptions C25_decode_total.
+
+(* ... but the parse error is not the only failure: ValueError escapes.
+   Finding valueerror-escapes-decode. *)
+Theorem C25_decode_parse_error_only_refuted : DnsMessage.unpack value_error_buf = Err EValue.
+Proof. exact parse_error_only_refuted. Qed.
+Print Assumptions C25_decode_parse_error_only_refuted.
+
+(* Without any byte >= 0xC0 in the buffer (no compression pointer, nothing that looks like
+   one) decoding yields a message or the parse error class only. *)
+Theorem C25_decode_parse_error_only_partial : forall buf : bytes, no_ptr_bytes buf = true ->
+  match DnsMessage.unpack buf with Ok _ => True | Err e => parse_err e end.
+Proof. exact unpack_total_plain. Qed.
+Print Assumptions C25_decode_parse_error_only_partial.
+
+(* Name decoding with compression is total for every cache whose sizes are positive. *)
+Theorem C25_name_decode_total : forall buf off c, cache_pos c ->
+  match fst (unpack_fwc buf off c) with Ok _ => True | Err e => parse_err e end.
+Proof. exact unpack_name_total. Qed.
+Print Assumptions C25_name_decode_total.
+
+(* A decoded message does not always re-encode to bytes that decode to the same message
+   (record data that starts to look like a pointer at the new offsets), and may not be
+   encodable at all (a name ending in a pointer to the root label decodes with a trailing
+   dot).  Findings rdata-pointer-lookalike-rewritten, decoded-message-not-packable. *)
+Theorem C25_reencode_refuted : exists b m b' m',
+  DnsMessage.unpack b = Ok m /\ packed m = Ok b' /\ DnsMessage.unpack b' = Ok m' /\ m' <> m.
+Proof. exact reencode_refuted. Qed.
+Print Assumptions C25_reencode_refuted.
+
+Theorem C25_reencode_not_packable_refuted :
+  exists b m, DnsMessage.unpack b = Ok m /\ packed m = Err EValue.
+Proof. exact not_packable_refuted. Qed.
+Print Assumptions C25_reencode_not_packable_refuted.
+
+Theorem C25_reencode_partial : forall b m, DnsMessage.unpack b = Ok m -> wf_msg m ->
+  Forall rdata_guard (all_rrs m) ->
+  exists b', packed m = Ok b' /\ DnsMessage.unpack b' = Ok m.
+Proof. exact reencode_partial. Qed.
+Print Assumptions C25_reencode_partial.
+
+(* The hypotheses are satisfiable on a non-trivial message: 1 question, an MX record (a
+   compressible type, data without pointer-like bytes), an A record whose data is c0 0c ff 01,
+   an OPT record with the root owner name; 98 bytes on the wire. *)
+Theorem C25_nonvacuous : wf_msg good_msg /\ Forall rdata_guard (all_rrs good_msg)
+  /\ length (all_rrs good_msg) = 3
+  /\ exists b, packed good_msg = Ok b /\ DnsMessage.unpack b = Ok good_msg /\ length b = 98.
+Proof. exact good_msg_ok. Qed.
+Print Assumptions C25_nonvacuous.
